@@ -845,12 +845,14 @@ def expectGetReads : List String := ["activeCode"]
     Accounted for: ip/sp/fp/halt/startCount/running - `St`; stack/frames/tmp - `sp`, `fp` (what
     lies above the pointers is dead); activeFrame/activeCode/main/loadedCode - `hasCode`,
     `loaded`, `cur`, `GSt`; modules/importer - `mods`, `fmod`, `icache`; importing - empty between
-    invocations (pushed and popped around a module's code by `importModule`); inputGlobals/
+    invocations (pushed and popped around a module's code by `importModule`); callDepth - 0 between
+    invocations (raised and lowered around a call by `callFunction`'s own Go defer, also on the
+    error and panic paths); inputGlobals/
     globals - constant after construction (the harness passes no options to RunCode);
     concAllowed/os - options, constant after construction; runMutex/cloneMutex - locks.
     A field that is not in this list is storage the model does not know of. -/
 def expectVmFields : List String :=
-  ["activeCode", "activeFrame", "cloneMutex", "concAllowed", "fp", "frames", "globals", "halt",
+  ["activeCode", "activeFrame", "callDepth", "cloneMutex", "concAllowed", "fp", "frames", "globals", "halt",
    "importer", "importing", "inputGlobals", "ip", "loadedCode", "main", "modules", "os",
    "runMutex", "running", "sp", "stack", "startCount", "tmp"]
 
